@@ -11,7 +11,7 @@ EXPLANATION = (
     "etc.); msgpack's extension types are written and read by inverse codec pairs with equal parameters (struct format, byte "
     "order, signedness) and every written ext code is read; recreate_classes descends into set/list/tuple/dict alike; server and "
     "client use one serializer object per exchange; the call envelope (object, method, vargs, kwargs) is written and read in matching "
-    "positions/keys; compression flag/transform pairing (shared with C06-R7). "
+    "positions/keys; the isinstance dispatch chains of the type mappers test subtypes before supertypes; compression flag/transform pairing (shared with C06-R7). "
     "Not decided: that serpent/json/marshal/msgpack/zlib return what was put in over the unbounded value domain, the "
     "documented type mapping, idempotence."
 )
